@@ -34,6 +34,8 @@ def cases(tier, seed):
                 continue
             yield {"kind": "definition", "objective": obj, "strategy": strat, "lik": lik, "beta": beta, "priors": priors, "combine_terms": comb,
                    "N": rnd.choice([20, 33]), "B": rnd.choice([1, 7, 12]), "batch": rnd.choice([[], [], [2]]), "seed": rnd.randrange(10**6)}
+        for obj, wrapper, T, beta in itertools.product(["VariationalELBO", "PredictiveLogLikelihood"], ["indep", "lmc"], [2, 3], [1.0, 0.3]):
+            yield {"kind": "definition_mt", "objective": obj, "wrapper": wrapper, "T": T, "beta": beta, "N": rnd.choice([20, 33]), "B": rnd.choice([1, 5, 9]), "seed": rnd.randrange(10**6)}
         for strat, q in itertools.product(["VariationalStrategy", "UnwhitenedVariationalStrategy"], ["random", "tinyS", "hugeS", "farmean", "prior", "optimal"]):
             yield {"kind": "bound", "strategy": strat, "q": q, "N": rnd.choice([12, 25]), "seed": rnd.randrange(10**6)}
         for strat, b, start in itertools.product(["VariationalStrategy", "UnwhitenedVariationalStrategy"], [[], [3]], ["init", "random"]):
@@ -108,7 +110,7 @@ def run_case(case, ctx):
     from vf import util
 
     g = util.gen(case["seed"])
-    return {"definition": _definition, "bound": _bound, "ngd": _ngd}[case["kind"]](case, ctx, g)
+    return {"definition": _definition, "definition_mt": _definition_mt, "bound": _bound, "ngd": _ngd}[case["kind"]](case, ctx, g)
 
 
 def _definition(case, ctx, g):
@@ -189,6 +191,79 @@ def _definition(case, ctx, g):
         else:
             ref_terms = -0.5 * ((yb - mean) ** 2 / (var + r) + torch.log(var + r) + math.log(2 * math.pi))
         ctx.close("per_point_terms", terms, ref_terms.expand(terms.shape), (1e-9, 1e-9), cls=cls + ":terms")
+    ctx.cell({k: v for k, v in case.items() if k != "seed"}, nontrivial=float(kl.abs().max()) > 1e-3)
+
+
+def _definition_mt(case, ctx, g):
+    """multi-output SVGP (independent / LMC wrapper) with a multitask Gaussian likelihood: the minibatch has B POINTS, each
+    with T outputs: (1/B) sum_i sum_t E_q[log p(y_it | f_it)] - beta/N KL"""
+    import math
+
+    import torch
+
+    import gpytorch
+    from vf import util
+    from vf.checks import c14
+
+    V = gpytorch.variational
+    N, B, T = case["N"], min(case["B"], case["N"] - 1), case["T"]
+    Lat = T if case["wrapper"] == "indep" else 2
+    Z = util.randn(g, Lat, M_, D)
+
+    class Mdl(gpytorch.models.ApproximateGP):
+        def __init__(s):
+            vd = V.CholeskyVariationalDistribution(M_, batch_shape=torch.Size([Lat]))
+            base = V.VariationalStrategy(s, Z, vd, learn_inducing_locations=True)
+            if case["wrapper"] == "indep":
+                vs = V.IndependentMultitaskVariationalStrategy(base, num_tasks=T)
+            else:
+                vs = V.LMCVariationalStrategy(base, num_tasks=T, num_latents=Lat, latent_dim=-1)
+            super().__init__(vs)
+            s.mean_module = gpytorch.means.ConstantMean(batch_shape=torch.Size([Lat]))
+            s.covar_module = gpytorch.kernels.ScaleKernel(gpytorch.kernels.RBFKernel(batch_shape=torch.Size([Lat])), batch_shape=torch.Size([Lat]))
+
+        def forward(s, x):
+            return gpytorch.distributions.MultivariateNormal(s.mean_module(x), s.covar_module(x))
+
+    m = Mdl()
+    util.randomize(m.mean_module, g, 0.5)
+    util.randomize(m.covar_module, g, 0.4)
+    base = m.variational_strategy.base_variational_strategy
+    c14._randomize_vd(base._variational_distribution, "CholeskyVariationalDistribution", g)
+    if case["wrapper"] == "lmc":
+        with torch.no_grad():
+            m.variational_strategy.lmc_coefficients.copy_(util.randn(g, *m.variational_strategy.lmc_coefficients.shape))
+    _init_flags(m)
+    lik = gpytorch.likelihoods.MultitaskGaussianLikelihood(num_tasks=T, rank=0)
+    util.randomize(lik, g, 0.4)
+    X, y = util.randn(g, N, D), util.randn(g, N, T)
+    idx = torch.randperm(N, generator=g)[:B]
+    Xb, yb = X[idx], y[idx]
+    m.train()
+    lik.train()
+    obj = getattr(gpytorch.mlls, case["objective"])(lik, m, num_data=N, beta=case["beta"])
+    _ST["cap"] = {}
+    try:
+        with torch.no_grad():
+            out = m(Xb)
+            _ST["cap"] = {}
+            got = obj(out, yb)
+            cap = _ST["cap"]
+    finally:
+        _ST["cap"] = None
+    ctx.expect("captured_terms_used", "kl" in cap, f"objective forward did not call kl_divergence (captured: {sorted(cap)})")
+    if "kl" not in cap:
+        return
+    kl = cap["kl"][-1]
+    with torch.no_grad():
+        r = (lik.task_noises.detach() + lik.noise.detach()).reshape(T)  # rank-0 task noise: diag(task_noises) + noise * I
+        mean, var = out.mean, out.variance  # B x T
+        if case["objective"] == "VariationalELBO":
+            terms = -0.5 * (((yb - mean) ** 2 + var) / r + torch.log(r) + math.log(2 * math.pi))
+        else:
+            terms = -0.5 * ((yb - mean) ** 2 / (var + r) + torch.log(var + r) + math.log(2 * math.pi))
+        ref = terms.sum() / B - case["beta"] * kl.sum() / N
+    ctx.close("objective_matches_definition", got, ref, (1e-9, 1e-9), cls=f"{case['objective'][:6]}:mt:{case['wrapper']}", beta=case["beta"], wrapper=case["wrapper"])
     ctx.cell({k: v for k, v in case.items() if k != "seed"}, nontrivial=float(kl.abs().max()) > 1e-3)
 
 
